@@ -1,8 +1,8 @@
-(* C16 -- JUnit report is well-formed XML and faithful to the run.  Only statements; proofs are in C16_Escape.v, C16_Parse.v, C16_Proofs.v. *)
+(* C16 -- JUnit report is well-formed XML and faithful to the run.  Only statements; proofs are in C16_Escape.v, C16_Parse.v, C16_Proofs.v, C16_Filtered.v. *)
 From Coq Require Import NArith Bool List.
 From Coq Require String.
 Import String.StringSyntax.
-From CppUVerif Require Import lib.Str gen.Gen_C16 C16_Events C16_Model C16_Escape C16_Parse C16_Proofs.
+From CppUVerif Require Import lib.Str gen.Gen_C16 C16_Events C16_Model C16_Escape C16_Parse C16_Proofs C16_Filtered.
 Import ListNotations.
 Local Open Scope N_scope.
 
@@ -61,13 +61,14 @@ Theorem C16_parse_print : forall p, ptree_ok p = true -> parses p.
 Proof. exact parses_all. Qed.
 Print Assumptions C16_parse_print.
 
-(* round trip: every run over printable text, with setPackageName / createFileName called at any points (before the run, before any
-   test, after the run), writes one file per group, named by the rule from the package in force when the group ended (trees_of threads
-   group_pkg), and each file parses to tree_of; every createFileName call is answered by the rule from the package of its moment,
-   whatever was written in between (ops_names over all outside calls in call order) *)
+(* round trip: every run over printable text -- any group / name filters, -ri, setPackageName / createFileName called at any points
+   (before the run, before any selected test, after the run) -- makes one WRITE per stretch of the registry (sel_segments: the stretches
+   reduced to their selected tests; a stretch with no selected test is the empty list), named by the rule from the package in force
+   when the group ended (trees_of threads group_pkg) and the group name (the EMPTY name for a fully filtered stretch), and each written
+   text parses to tree_of; every createFileName call that is made is answered by the rule from the package of its moment *)
 Theorem C16_roundtrip : forall s, valid s = true ->
-  map (fun f => (fst f, xml_parse (snd f))) (fst (run s)) = trees_of [] (osegments (s_tests s)) []
-  /\ snd (run s) = ops_names [] (flat_map fst (s_tests s) ++ s_post s).
+  map (fun f => (fst f, xml_parse (snd f))) (fst (run_writes s)) = trees_of [] (sel_segments s) []
+  /\ snd (run_writes s) = ops_names [] (flat_map fst (filter (selo (s_sel s)) (armed s)) ++ s_post s).
 Proof. exact roundtrip. Qed.
 Print Assumptions C16_roundtrip.
 
@@ -106,6 +107,101 @@ Theorem C16_example_names_follow_package :
   /\ map fst (fst (run example_run)) = [B "cpputest_q_G_.xml"%string; B "cpputest_H.xml"%string].
 Proof. exact example_names. Qed.
 Print Assumptions C16_example_names_follow_package.
+
+(* --------------------------------------------------------------------------------------------------------------
+   RUNS WITH FILTERS (-g -sg -xg -xsg -n -sn -xn -xsn) AND -ri; the file system keeps, per name, the last thing written
+   -------------------------------------------------------------------------------------------------------------- *)
+(* runAllTests with testShouldRun: group started / group ended bracket EVERY stretch of the registry, the callbacks (and the outside
+   calls attached to them) in between are those of the selected tests only -- none at all for a fully filtered stretch *)
+Theorem C16_filtered_registry_order : forall sel ts, freg_loop sel true ts = flat_map (fseg_events sel) (osegments ts).
+Proof. exact freg_loop_segments. Qed.
+Print Assumptions C16_filtered_registry_order.
+
+(* with every test selected the filtered loop is the loop of the unfiltered model, and the writes are those of run_with *)
+Theorem C16_filtered_loop_conservative : forall b ts, freg_loop (fun _ => true) b ts = oreg_loop b ts.
+Proof. exact freg_loop_all. Qed.
+Print Assumptions C16_filtered_loop_conservative.
+Theorem C16_unfiltered_writes : forall esc ts post, writes_with (jstep esc) (fun _ => true) ts post = run_with esc ts post.
+Proof. exact unfiltered_writes. Qed.
+Print Assumptions C16_unfiltered_writes.
+
+(* the writes of a filtered run in the order of the opens: one per stretch, a fully filtered stretch included *)
+Theorem C16_filtered_writes : forall esc sel ts post,
+  writes_with (jstep esc) sel ts post
+  = (group_files esc [] (map (filter (selo sel)) (osegments ts)) [], ops_names [] (flat_map fst (filter (selo sel) ts) ++ post)).
+Proof. exact writes_with_files. Qed.
+Print Assumptions C16_filtered_writes.
+
+(* what the code does for a stretch none of whose tests is selected: it writes, under the name built from the EMPTY group name
+   (cpputest_[package_].xml -- never under the name of another group), a suite stating 0 tests, 0 failures, no test case *)
+Theorem C16_fully_filtered_write : forall esc pkg gs printed,
+  group_files esc pkg ([] :: gs) printed
+  = (createFileName pkg [], write_group esc pkg (group_state [] printed [])) :: group_files esc pkg gs (printed ++ []).
+Proof. exact fully_filtered_write. Qed.
+Print Assumptions C16_fully_filtered_write.
+Theorem C16_empty_suite_counts : forall pkg printed,
+  match tree_of pkg [] printed with
+  | Elem nm attrs kids => nm = L_testsuite /\ get_attr L_tests attrs = Some [48] /\ get_attr L_failures attrs = Some [48]
+                          /\ get_attr L_name attrs = Some [] /\ elems_named L_testcase kids = []
+  | Text _ => False
+  end.
+Proof. exact empty_suite_counts. Qed.
+Print Assumptions C16_empty_suite_counts.
+
+(* the file system: what a name holds at the end is what was written to it LAST; a name never written does not exist *)
+Theorem C16_fs_last_write_wins : forall ws fn, fs_lookup fn (fs_of_writes ws) = last_write fn ws.
+Proof. exact fs_last_write_wins. Qed.
+Print Assumptions C16_fs_last_write_wins.
+Theorem C16_run_is_fs_of_writes : forall s, run s = (fs_of_writes (fst (run_writes s)), snd (run_writes s)).
+Proof. exact run_is_fs_of_writes. Qed.
+Print Assumptions C16_run_is_fs_of_writes.
+
+(* the property for filtered runs, in Prop form: a group that ran (a stretch g with at least one selected test), whose file name no
+   later stretch claims, has AT THE END OF THE RUN, under the name built from the package of its moment and its group name, a file
+   that parses to tree_of of exactly its selected tests -- whatever fully filtered stretches came before, between and after *)
+Theorem C16_ran_group_file_survives : forall s pre g post', valid s = true ->
+  sel_segments s = pre ++ g :: post' -> map snd g <> [] ->
+  let pkg := group_pkg (groups_pkg [] pre) g in
+  let printed := flat_map (fun g => tests_printed (map snd g)) pre in
+  let fn := expected_filename pkg (group_name (map snd g)) in
+  later_claims fn pkg post' = false ->
+  exists content, fs_lookup fn (fst (run s)) = Some content
+                  /\ xml_parse content = Some (tree_of pkg (map snd g) printed)
+                  /\ suite_ok (map snd g) (printed ++ tests_printed (map snd g)) (tests_printed (map snd g)) (tree_of pkg (map snd g) printed) = true.
+Proof. exact ran_group_file_survives. Qed.
+Print Assumptions C16_ran_group_file_survives.
+Theorem C16_ran_group_hypotheses_satisfiable : exists pre g post',
+  valid stale_witness = true /\ sel_segments stale_witness = pre ++ g :: post' /\ map snd g <> []
+  /\ later_claims (expected_filename (group_pkg (groups_pkg [] pre) g) (group_name (map snd g))) (group_pkg (groups_pkg [] pre) g) post' = false.
+Proof. exact ran_group_hyps_satisfiable. Qed.
+Print Assumptions C16_ran_group_hypotheses_satisfiable.
+
+(* a writer whose resetTestGroupResult leaves the group name (not the code) violates the property: group G runs, the stretch H behind
+   it is filtered out (-sg G), H's empty suite is written under G's name and replaces G's report; with the filtered stretch in FRONT
+   of G the same writer is not told apart *)
+Theorem C16_run_stale_refuted : ~ (forall s, valid s = true -> spec s (run_stale s) = true).
+Proof. exact run_stale_refuted. Qed.
+Print Assumptions C16_run_stale_refuted.
+
+(* examples.  Registry A a1 | G g1 g2(ignored) n3 | B b1 | G g4 | C c1, name filter "g" (contains), -ri: A, B, C fully filtered (before,
+   between, after), G partially filtered, g2 runs because of -ri, G occurs in two stretches: five writes, two files left
+   (cpputest_.xml = the empty suites, cpputest_G.xml = the second stretch of G); the oracle accepts, and rejects the stale writer *)
+Theorem C16_filtered_example :
+  valid filtered_example = true
+  /\ map (fun g => map (fun x => t_name (snd x)) g) (sel_segments filtered_example) = [[]; [[103; 49]; [103; 50]]; []; [[103; 52]]; []]
+  /\ map fst (fst (run_writes filtered_example))
+     = [B "cpputest_.xml"%string; B "cpputest_G.xml"%string; B "cpputest_.xml"%string; B "cpputest_G.xml"%string; B "cpputest_.xml"%string]
+  /\ map fst (fst (run filtered_example)) = [B "cpputest_.xml"%string; B "cpputest_G.xml"%string]
+  /\ spec filtered_example (run filtered_example) = true
+  /\ spec filtered_example (run_stale filtered_example) = false.
+Proof. exact filtered_example_facts. Qed.
+Print Assumptions C16_filtered_example.
+(* filters that select nothing at all: every stretch is written as an empty suite under cpputest_.xml; nothing is demanded *)
+Theorem C16_nothing_selected_example :
+  valid nothing_selected = true /\ sel_segments nothing_selected = [[]; []]
+  /\ map fst (fst (run nothing_selected)) = [B "cpputest_.xml"%string] /\ spec nothing_selected (run nothing_selected) = true.
+Proof. exact nothing_selected_facts. Qed.
+Print Assumptions C16_nothing_selected_example.
 
 (* --------------------------------------------------------------------------------------------------------------
    THE TRANSLATED SOURCE of JUnitTestOutput's collection of results and of all its writers (gen/Gen_HeapC16.v, regenerated by tools/cxx2heap.py on every run) follows the model's junit_step on the heap and writes, rendered to bytes, exactly write_group
